@@ -27,6 +27,7 @@ mod c10;
 mod c09;
 mod c04;
 mod c11;
+mod c11b;
 mod c05;
 mod c05b;
 
@@ -88,10 +89,19 @@ fn lookup(id: &str) -> Option<(&'static str, Gen, Exec)> {
         "C10" => Some(("C10", c10::generate, c10::exec)),
         "C09" => Some(("C09", c09::generate, c09::exec)),
         "C04" => Some(("C04", c04::generate, c04::exec)),
-        "C11" => Some(("C11", c11::generate, c11::exec)),
+        "C11" => Some(("C11", c11_generate, c11_exec)),
         "C05" => Some(("C05", c05_generate, c05_exec)),
         _ => None,
     }
+}
+
+fn c11_generate(ctx: &mut Ctx) {
+    c11::generate(ctx);
+    c11b::generate_into(ctx);
+}
+
+fn c11_exec(toks: &[&str]) -> String {
+    if toks.first() == Some(&"pubx") { c11b::exec(toks) } else { c11::exec(toks) }
 }
 
 fn c05_generate(ctx: &mut Ctx) {
